@@ -376,8 +376,14 @@ func (p *Portfolio) Check(lits []*Term) string {
 				decidedBy = name
 			}
 		}
-		for _, name := range p.order {
-			if name == decidedBy || name == "z3new" {
+		// the checker is a different solver build that is fast on the same kind of query: z3 5.1 for answers of z3 4.8
+		// (cvc5 can be two orders of magnitude slower on these logs and would dominate the run), z3 4.8 for cvc5's
+		checker := map[string]string{"z3": "z3new", "cvc5": "z3", "z3new": "z3"}[decidedBy]
+		for _, name := range []string{checker} {
+			if name == "" || name == decidedBy {
+				continue
+			}
+			if _, ok := p.specs[name]; !ok {
 				continue
 			}
 			r2 := p.proc(name).check(lits)
